@@ -271,6 +271,7 @@ def _plan(tier):
             plan.append(("reversible", dict(n=n, nsteps=2, apply_constraints=False), ("done",)))
     plan.append(("refresh", dict(n=1 if tier == "quick" else 2, forced=False), ("done",)))
     plan.append(("refresh", dict(n=1, forced=True), ("done",)))
+    plan.append(("refresh", dict(n=2, forced=True), ("done",)))  # two different (symbolic) masses
     for v in (0, 1, 2):
         plan.append(("kinetic", dict(n=1, vetoes=v), ("done",)))
     plan.append(("reference", dict(n=1, nsteps=1, apply_constraints=True, reassign=False), (), "momenta==velocity-verlet"))
